@@ -102,7 +102,7 @@ BackendOnly(U) == {c \in U : c.level = "backend"}
 UOf(t) == CASE t = "quick" -> UQuick(0)
             [] t = "quick-backend" -> BackendOnly(UQuick(0))
             [] t = "small" -> Empty \cup Singles(GarbageQuick) \cup Random
-            [] t = "thorough-all-backend" -> BackendOnly(UThoroughBackend(0) \cup UThoroughCli(0))
+            [] t = "thorough-refines" -> BackendOnly(UThoroughBackend(0))
             [] t = "thorough-backend" -> UThoroughBackend(0)
             [] t = "thorough-cli" -> UThoroughCli(0)
             [] t = "thorough-triples" -> Triples("backend", Core, Settings2) \cup Triples("cli", Core, Settings2)
